@@ -75,6 +75,8 @@ def build_bundle(h, tree, counter, inline_roles=False):
         kw = {}
         if srole:
             kw["role"] = getattr(sb.roles, srole)
+        if name in ("s", "s1"):
+            kw["port"] = True  # a sub-bundle *instance* flagged as a port: port-ness is decided by the outermost instance alone
         inst = mk_flipped(h, sb, flip, kw)
         setattr(b, name, inst)
     return b
@@ -124,7 +126,8 @@ def _one(item):
         b = build_bundle(h, tree, [0], inline_roles=(style == "class"))
         kw = dict(port=is_port)
         if inst_role:
-            kw["role"] = getattr(b.roles, inst_role)
+            # the bundle's own Role object, or (procedural style) an equal one made elsewhere: roles compare by name
+            kw["role"] = getattr(b.roles, inst_role) if style == "class" else h.Role(name=inst_role)
         bi = mk_flipped(h, b, inst_flip, kw)
         if style == "class":
             m = h.module(type("Subj", (), {"bb": bi, "zz": h.Signal()}))
